@@ -121,16 +121,41 @@ def plan(prop, tier, seed):
     for name in ISAS:
         parts = 1 if tier == "quick" else 6
         for p in range(parts):
-            specs.append({"kind": "pairs", "isa": name, "part": p, "parts": parts, "budget": 400 if tier == "quick" else 6000, "seed": run_seed(seed, prop, tier + "-pairs", k)})
+            specs.append({"kind": "pairs", "isa": name, "part": p, "parts": parts, "budget": 600 if tier == "quick" else 8000, "seed": run_seed(seed, prop, tier + "-pairs", k)})
             k += 1
     return specs
 
 
+SAMPLE_FILES = {
+    "amoco.arch.x86.cpu_x86": ["x86/flow.elf", "x86/loop_simple.elf", "x86/test_full.elf", "x86/test_pie.elf"],
+    "amoco.arch.x64.cpu_x64": ["x64/flow.elf64", "x64/loop_simple.elf64", "x64/cxx.elf64", "x64/merge.elf64", "x64/test_full.elf64"],
+    "amoco.arch.arm.cpu_armv7": ["arm/hw"],
+    "amoco.arch.sparc.cpu_v8": ["sparc/saverestore", "sparc/solaris-sed.elf"],
+    "amoco.arch.riscv.cpu_rv32i": ["riscv/TA.elf.signed"],
+}
+SAMPLES = {}
+
+
 def zygote_init():
+    import os
     from .. import isa
+    from .cfgsim import _elf_entry_offset
 
     isa.load_all(ISAS)
     import amoco.cas.mapper  # noqa
+
+    repo = os.path.realpath(os.environ.get("AMOSIM_REPO", "/repo"))
+    for name, files in SAMPLE_FILES.items():
+        out = []
+        for f in files:
+            try:
+                d = open(os.path.join(repo, "tests", "samples", f), "rb").read()
+            except OSError:
+                continue
+            ent = _elf_entry_offset(d)
+            if ent is not None:
+                out.append(d[ent : ent + 1500])
+        SAMPLES[name] = out
 
 
 # ---------------------------------------------------------------------------
@@ -160,10 +185,38 @@ def state_for(m, salt):
     return s
 
 
+SHIFTS = ("<<", ">>", ".>>", ">>>", "<<<")
+
+
+def giant_shift(e, state, depth=0):
+    """does evaluating e under state shift by an enormous amount?  (cst.__lshift__
+    materialises value << n before masking: n ~ 2**32 allocates half a gigabyte and
+    stalls -- a C01 matter; such states are skipped, and counted)"""
+    from ..heap import children
+
+    if depth > 60:
+        return False
+    for c in children(e):
+        if giant_shift(c, state, depth + 1):
+            return True
+    if e._is_eqn and getattr(e.op, "symbol", None) in SHIFTS and e.l is not None:
+        try:
+            rv = e.r.eval(state)
+        except Exception:
+            return False
+        if rv._is_cst and rv.v > 8 * max(64, e.size):
+            return True
+    return False
+
+
 def observe_map(m, salt):
     """-> ["ok", {loc: [size, v|None]}] or ["exc", type]"""
     try:
-        r = state_for(m, salt) >> m
+        st0 = state_for(m, salt)
+        for l, v in m:
+            if giant_shift(v, st0) or (l._is_ptr and giant_shift(l, st0)):
+                return ["skipped", "giant-shift-amount"]
+        r = st0 >> m
         out = {}
         for l, v in r:
             try:
@@ -293,11 +346,16 @@ class World(object):
         import importlib
         from amoco.cas.expressions import exp
 
+        import sys as _sys
+
         cpu = self.I.LOADED[name]
         mods = [cpu]
-        for attr in ("env",):
-            if hasattr(cpu, attr):
-                mods.append(getattr(cpu, attr))
+        # every module of the ISA's package (env, utils, asm, spec*): tables of shared
+        # expression objects live there too (condition codes, addressing-form tables ...)
+        pkg = name.rsplit(".", 1)[0] + "."
+        for mn, mod in sorted(_sys.modules.items()):
+            if mod is not None and mn.startswith(pkg) and mod is not cpu:
+                mods.append(mod)
         # the env module(s) of the ISA: everything the cpu module re-exports
         seen_dicts = {}
         for mod in mods:
@@ -310,8 +368,24 @@ class World(object):
                     for x in v:
                         if isinstance(x, exp):
                             self.B.track(x, "global:%s[]" % k)
+                        elif isinstance(x, (list, tuple)):
+                            for y in x:
+                                if isinstance(y, exp):
+                                    self.B.track(y, "global:%s[][]" % k)
                 elif isinstance(v, dict) and k in ("internals",):
-                    seen_dicts["%s.%s" % (mod.__name__, k)] = v
+                    if not any(d is v for d in seen_dicts.values()):
+                        key = "%s.%s" % (cpu.__name__, k)
+                        if key in seen_dicts:  # another dict of the same name in a sibling module
+                            key = "%s.%s" % (mod.__name__, k)
+                        seen_dicts[key] = v
+                elif isinstance(v, dict) and len(v) < 300:
+                    for x in v.values():
+                        if isinstance(x, exp):
+                            self.B.track(x, "global:%s{}" % k)
+                        elif isinstance(x, (list, tuple)):
+                            for y in x:
+                                if isinstance(y, exp):
+                                    self.B.track(y, "global:%s{}[]" % k)
         for k, d in seen_dicts.items():
             self.globals[k] = (d, dict(d))
 
@@ -593,6 +667,7 @@ class Gen(object):
         self.template = r.getrandbits(128)
         self.nid = 0
         self.specs = {}
+        self.hot = {}
         self.pending = []
 
     def newid(self, p):
@@ -605,14 +680,48 @@ class Gen(object):
             self.specs[name] = [s for s in self.I.specs_of_set(d, 0) if s.pfx is not True]
         return self.specs[name]
 
+    def real_code(self, r, name):
+        """2..6 consecutive instructions of real compiled code (flag setters followed by
+        their users, address computations followed by loads ...)"""
+        cpu = self.I.LOADED[name]
+        code = r.choice(SAMPLES[name])
+        off = r.randrange(0, max(1, len(code) - 64))
+        if name.endswith(("armv7", "sparc.cpu_v8", "rv32i")):
+            off &= ~3
+        out = []
+        d = cpu.disassemble
+        try:
+            for _ in range(r.choice([2, 3, 4, 6])):
+                i = d(code[off : off + d.maxlen + 4])
+                if i is None:
+                    break
+                out.append(bytes(i.bytes).hex())
+                off += i.length
+        except Exception:
+            pass
+        return out
+
     def new_block(self, r, c):
         name = c["isa"]
         cpu = self.I.LOADED[name]
         en = self.I.insn_endian(cpu)
         S = self.sem_specs(name)
         ins = []
+        if SAMPLES.get(name) and r.random() < 0.4:
+            ins = self.real_code(r, name)
+            if ins:
+                bid = self.newid("b")
+                c["blocks"].append(bid)
+                self.W.st.hit("blocks-from-real-code")
+                return {"op": "block", "id": bid, "isa": name, "ins": ins, "addr": r.choice([0x1000, 0x400000]), "client": self.clients.index(c)}
+        # swarm: a per-world "hot" subset of the specs is used for most instructions, so that
+        # the same few instructions meet again and again in one history (different subsets
+        # in different worlds)
+        hot = self.hot.get(name)
+        if hot is None:
+            hot = self.hot[name] = r.sample(S, min(len(S), r.choice([6, 10, 16])))
         for _ in range(r.choice([1, 1, 2, 3, 4])):
-            s = r.choice(S)
+            s = r.choice(hot) if r.random() < 0.6 else r.choice(S)
             b = self.I.encode(s, r, endian=en if s.size != 0 else 1, tail=6 if s.size == 0 else 0, template=self.template, flip=0.3)
             if name.endswith(("cpu_x86", "cpu_x64")) and r.random() < 0.35:
                 # legacy prefixes select other operand / address sizes and segment forms
@@ -774,12 +883,7 @@ def run_pairs(spec):
         en = I.insn_endian(cpu)
         S = [s for s in I.specs_of_set(cpu.disassemble, 0) if s.pfx is not True]
         n = len(S)
-        total = n * n
         budget = spec.get("budget", 1000)
-        # pairs of this part: all of them if they fit the budget, a seeded sample otherwise
-        idx = list(range(spec["part"], total, spec["parts"]))
-        if len(idx) > budget:
-            idx = sorted(rng.sample(idx, budget))
         st = W.st
         viol = None
         trace = None
@@ -788,15 +892,62 @@ def run_pairs(spec):
         confirmed_none = 0
         digests = []
         collected = {}
-        for pk in idx:
-            p, v = S[pk // n], S[pk % n]
-            T = rng.getrandbits(128)
+        # (1) polluter discovery -- the monitors as a *guide*, never as the oracle: a spec is
+        # a polluter candidate when decoding + mapping + executing it (alone, or after a
+        # leading instruction) wrote a field of a pre-existing node or a global dict entry
+        # at a site that is not listed
+        P = []
+        mine = S[spec["part"] :: spec["parts"]]
+        for p in mine:
+            for attempt in range(2):
+                T = rng.getrandbits(128)
+                lead = []
+                if attempt == 1:
+                    q = rng.choice(S)
+                    lead = [I.encode(q, rng, endian=en if q.size != 0 else 1, tail=6 if q.size == 0 else 0, template=T, flip=0.0).hex()]
+                bp = I.encode(p, rng, endian=en if p.size != 0 else 1, tail=6 if p.size == 0 else 0, template=T, flip=0.0).hex()
+                nid[0] += 1
+                k = nid[0]
+                wrote = False
+                for op in ({"op": "reset"}, {"op": "block", "id": "d%d" % k, "isa": name, "ins": lead + [bp], "addr": 0x1000, "client": 1}, {"op": "map", "id": "md%d" % k, "block": "d%d" % k, "client": 1}, {"op": "exec1", "block": "d%d" % k, "client": 1}):
+                    W.step(op)
+                    if [x for x in W.last_writes if x not in W.known]:
+                        wrote = True
+                W.blocks.clear()
+                W.maps.clear()
+                if wrote:
+                    P.append((p, lead, T))
+                    break
+        st.hit("polluter-candidates", len(P))
+        st.hit("specs-screened", len(mine))
+        # (2) candidates x victims (all of them if they fit the budget), the rest of the
+        # budget on uniformly sampled pairs
+        plan = []
+        if P:
+            per = max(1, min(n, budget * 2 // (3 * len(P))))
+            for (p, lead, T) in P:
+                vs = S if per >= n else rng.sample(S, per)
+                for v in vs:
+                    plan.append((p, v, lead, T))
+        while len(plan) < budget:
+            plan.append((rng.choice(mine or S), rng.choice(S), None, None))
+        for (p, v, lead0, T0) in plan:
+            T = T0 if T0 is not None else rng.getrandbits(128)
             bp = I.encode(p, rng, endian=en if p.size != 0 else 1, tail=6 if p.size == 0 else 0, template=T, flip=0.0)
             bv = I.encode(v, rng, endian=en if v.size != 0 else 1, tail=6 if v.size == 0 else 0, template=T, flip=0.0)
             if name.endswith(("cpu_x86", "cpu_x64")) and rng.random() < 0.3:
                 pf = bytes([rng.choice([0x66, 0x67, 0x67])])
                 bp, bv = pf + bp, pf + bv
             bp, bv = bp.hex(), bv.hex()
+            # the polluter may need something in its map to chew on (flags set by a
+            # previous instruction, a loaded value ...): half of the time it is preceded by
+            # another instruction on the same operand template
+            lead = []
+            if lead0 is not None:
+                lead = list(lead0)
+            elif rng.random() < 0.5:
+                q = rng.choice(S)
+                lead = [I.encode(q, rng, endian=en if q.size != 0 else 1, tail=6 if q.size == 0 else 0, template=T, flip=0.0).hex()]
             nid[0] += 1
             k = nid[0]
             ops = [
@@ -804,7 +955,8 @@ def run_pairs(spec):
                 {"op": "block", "id": "v%d" % k, "isa": name, "ins": [bv], "addr": 0x1000, "client": 0},
                 {"op": "map", "id": "mv%d" % k, "block": "v%d" % k, "client": 0},
                 {"op": "eval", "map": "mv%d" % k, "salts": list(range(SALTS)), "client": 0},
-                {"op": "block", "id": "p%d" % k, "isa": name, "ins": [bp], "addr": 0x1000, "client": 1},
+                {"op": "block", "id": "p%d" % k, "isa": name, "ins": lead + [bp], "addr": 0x1000, "client": 1},
+                {"op": "map", "id": "mp%d" % k, "block": "p%d" % k, "client": 1},
                 {"op": "exec1", "block": "p%d" % k, "client": 1},
                 {"op": "eval", "map": "mv%d" % k, "salts": list(range(SALTS)), "client": 0},
                 {"op": "block", "id": "w%d" % k, "isa": name, "ins": [bv], "addr": 0x1000, "client": 0},
@@ -814,6 +966,8 @@ def run_pairs(spec):
             # each pair is its own little history: forget earlier first-observations
             W.first.clear()
             W.first_dec.clear()
+            W.blocks.clear()
+            W.maps.clear()
             W.ref_budget = 0
             hit = None
             psites = []
